@@ -69,6 +69,9 @@ def pairs(ctx):
                 len(B), hdr, FB(float(x)), FB(float(y)), FB(float(iw)), FB(float(ih)), img,
                 scene.xf_tokens((1.0, 0.0, 0.0, 1.0, float(-x), float(-y))), opts))
             kinds.append("draw_image_at at an integer position vs fill_rect with the translated image source")
+    for kind_, a_, b_ in core.corpus_pairs("C14"):      # pairs kept from earlier failures run too
+        ta, tb = a_.split(" ", 2), b_.split(" ", 2)
+        A.append("%s %d %s" % (ta[0], len(A), ta[2])); B.append("%s %d %s" % (tb[0], len(B), tb[2])); kinds.append(kind_)
     ra, _ = build.run_sharded(build.RQV, sc.augment(A))
     rb, _ = build.run_sharded(build.RQV, sc.augment(B))
     ctx.cov["metamorphic_pairs"] = len(A)
